@@ -298,7 +298,10 @@ async fn run_task<S: Sink + ?Sized>(
 ) {
     let mut finished: Vec<usize> = vec![];
     let mut last = (0u64, 0u64);
+    // adaptive lookups (kind 10 + alt): what the task asks next depends on what its previous lookup returned
+    let mut prev_ok = true;
     for (k, kind) in lookups {
+        let (k, kind) = if kind >= 10 { (if prev_ok { k } else { (kind - 10) as usize }, 0u8) } else { (k, kind) };
         let m = &mods[k];
         let simple_ok = m.code_file.is_none()
             && m.code_identifier.is_none()
@@ -374,6 +377,7 @@ async fn run_task<S: Sink + ?Sized>(
         if !sym.stats().contains_key(&obs.leaf_of_key[k]) {
             obs.fail(format!("lookup of key {} finished but stats() has no entry for its leaf name", k));
         }
+        prev_ok = class != "E";
         out.push_class(class);
     }
 }
@@ -959,9 +963,14 @@ fn run(line: &str) -> String {
     let current = Arc::new(AtomicUsize::new(usize::MAX));
     let in_sup = Arc::new(Mutex::new(vec![false; nt]));
     let file_calls = Arc::new(AtomicUsize::new(0));
+    // the modules this run asks for (adaptive lookups unfolded along the supplier's scripted answers: only an upper
+    // bound for the tasks' own checks of the counters)
     let mut distinct: Vec<usize> = vec![];
     for lk in &tasks {
-        for &(k, _) in lk {
+        let mut prev_ok = true;
+        for &(k, kind) in lk {
+            let k = if kind >= 10 && !prev_ok { (kind - 10) as usize } else { k };
+            prev_ok = scripts[k].1 == 0;
             if !distinct.contains(&k) {
                 distinct.push(k);
             }
